@@ -742,6 +742,29 @@ func (env *SpecEnv) addrOf(e *Expr) (Term, types.Type, error) {
 				return RefAdd(base, IntLit(vc.tt.FieldOffset(st, i))), st.Field(i).Type(), nil
 			}
 		}
+		// a promoted field: walk through the embedded structs (an embedded pointer is loaded)
+		if obj, path := lookupFieldAnyPkg(el, e.Op); obj != nil && len(path) > 1 {
+			curBase, curSt := base, st
+			for k, idx := range path {
+				fa := RefAdd(curBase, IntLit(vc.tt.FieldOffset(curSt, idx)))
+				ft := curSt.Field(idx).Type()
+				if k == len(path)-1 {
+					return fa, ft, nil
+				}
+				if pt, ok := U(ft).(*types.Pointer); ok {
+					v, lerr := vc.loadRaw(env.cur, fa, ft)
+					if lerr != nil {
+						return Term{}, nil, lerr
+					}
+					fa, ft = v, pt.Elem()
+				}
+				nst, ok := U(ft).(*types.Struct)
+				if !ok {
+					return Term{}, nil, fmt.Errorf("promoted field %s through a non-struct", e.Op)
+				}
+				curBase, curSt = fa, nst
+			}
+		}
 		return Term{}, nil, fmt.Errorf("no field %s", e.Op)
 	case EIndex:
 		i, err := env.Eval(e.Args[1])
